@@ -38,7 +38,7 @@ use teos_common::receipts::{AppointmentReceipt, RegistrationReceipt};
 use teos_common::{TowerId, UserId};
 use watchtower_plugin::net::http as chttp;
 
-use verif_harness::simnode::{Node, NodeState};
+use verif_harness::simnode::{Node, NodeState, Verdict};
 use verif_harness::tower::{install_panic_hook, Cfg, Rig, LAST_PANIC};
 
 // ---------------------------------------------------------------------------------------------------
@@ -432,10 +432,17 @@ struct Served {
     rig: Rig,
     http: SocketAddr,
     reader: StateReader,
+    /// a request did not return: its thread may hold the tower's locks for ever, so the tower's state is not read again
+    /// (the snapshot accessors take the same locks) and no further case is sent to it
+    hung: bool,
 }
 
 const LOC_WATCHED: i64 = 10;
 const LOC_TRIGGERED: i64 = 20;
+/// locators of appointments whose dispute was confirmed while the node said their penalty is already on chain (-27):
+/// still held, no tracker.  A pool: an accepted re-submission changes the state of the one it uses.
+const LOC_RESOLVED_BASE: i64 = 1000;
+const N_RESOLVED: i64 = 40;
 const U_REG: i64 = 1;
 const U_EXPIRED: i64 = 2;
 const U_NOSLOTS: i64 = 3;
@@ -478,9 +485,21 @@ fn boot_tower_a(wd: &Path) -> Rig {
     expect_code(&rig.add(U_REG, LOC_WATCHED, &blob_spec(LOC_WATCHED), 42, "valid"), "ok", "add(watched)");
     expect_code(&rig.add(U_REG, LOC_TRIGGERED, &blob_spec(LOC_TRIGGERED), 42, "valid"), "ok", "add(triggered)");
     let dispute = rig.rec.lock().unwrap().sym.tx(LOC_TRIGGERED);
-    rig.node.lock().unwrap().mine(vec![dispute]);
+    let mut block = vec![dispute];
+    for i in 0..N_RESOLVED {
+        let l = LOC_RESOLVED_BASE + 10 * i;
+        expect_code(&rig.add(U_REG, l, &blob_spec(l), 42, "valid"), "ok", "add(resolved)");
+        let penalty = rig.rec.lock().unwrap().sym.tx(l + 1);
+        rig.node.lock().unwrap().scripted.entry(penalty.compute_txid()).or_default().push_back(Verdict::Code(-27));
+        block.push(rig.rec.lock().unwrap().sym.tx(l));
+    }
+    rig.node.lock().unwrap().mine(block);
     if !rig.poll() {
         die("tower A: poll failed");
+    }
+    let g = rig.get(U_REG, LOC_RESOLVED_BASE, "valid");
+    if g["status"] != "watched" {
+        die(&format!("tower A: the resolved appointment is not held without a tracker: {g}"));
     }
     let g = rig.get(U_REG, LOC_TRIGGERED, "valid");
     if g["status"] != "responded" {
@@ -552,6 +571,7 @@ fn info(wd: &Path, n_fresh: u32) -> Value {
         "loc": {
             "watched": hex::encode(locator_of(&rig, LOC_WATCHED).to_vec()),
             "triggered": hex::encode(locator_of(&rig, LOC_TRIGGERED).to_vec()),
+            "resolved": (0..N_RESOLVED).map(|i| hex::encode(locator_of(&rig, LOC_RESOLVED_BASE + 10 * i).to_vec())).collect::<Vec<_>>(),
         },
         "fresh": fresh,
         "slots_per_registration": SLOTS_A,
@@ -573,8 +593,8 @@ fn http_mode(cases: &str, results: &str, wd: &Path) {
     let http_b = serve(&rt, rig_b.tower.as_ref().unwrap().api.clone());
     let reader_a = StateReader::open(&rig_a.db_path);
     let reader_b = StateReader::open(&rig_b.db_path);
-    let mut a = Served { rig: rig_a, http: http_a, reader: reader_a };
-    let mut b = Served { rig: rig_b, http: http_b, reader: reader_b };
+    let mut a = Served { rig: rig_a, http: http_a, reader: reader_a, hung: false };
+    let mut b = Served { rig: rig_b, http: http_b, reader: reader_b, hung: false };
     let _ = take_panic();
 
     let input = BufReader::new(std::fs::File::open(cases).unwrap_or_else(|e| die(&format!("cannot read {cases}: {e}"))));
@@ -586,7 +606,8 @@ fn http_mode(cases: &str, results: &str, wd: &Path) {
             continue;
         }
         let c: Value = serde_json::from_str(&line).unwrap_or_else(|e| die(&format!("bad case line: {e}")));
-        if hangs >= 6 {
+        let tower_hung = if c["tower"] == "B" { b.hung } else { a.hung };
+        if hangs >= 6 || tower_hung {
             // the tower hangs: do not spend the deadline on every remaining case
             let res = json!({"id": c["id"], "io": "skipped", "status": null, "headers": [], "body_hex": "", "elapsed_ms": 0,
                              "changed": [], "panic": null});
@@ -652,7 +673,10 @@ fn http_mode(cases: &str, results: &str, wd: &Path) {
         let pre = full_state(&t.rig, &t.reader);
         let deadline = Duration::from_millis(c["deadline_ms"].as_u64().unwrap_or(8000));
         let obs = exchange(t.http, payload, c["half_close"].as_bool().unwrap_or(false), c["is_head"].as_bool().unwrap_or(false), deadline);
-        let post = full_state(&t.rig, &t.reader);
+        if obs.io.starts_with("timeout") {
+            t.hung = true;
+        }
+        let post = if t.hung { pre.clone() } else { full_state(&t.rig, &t.reader) };
         if down {
             *reachable.0.lock().unwrap() = true;
             reachable.1.notify_all();
@@ -683,7 +707,7 @@ fn http_mode(cases: &str, results: &str, wd: &Path) {
         out.write_all(b"\n").unwrap();
         n += 1;
         // keep the "reg" user supplied with slots (outside the observed window)
-        if c["tower"] != "B" && reg_slots(&a.rig) < 40 {
+        if c["tower"] != "B" && !a.hung && reg_slots(&a.rig) < 40 {
             for _ in 0..20 {
                 expect_code(&a.rig.register(U_REG), "ok", "top-up register(reg)");
             }
@@ -694,6 +718,10 @@ fn http_mode(cases: &str, results: &str, wd: &Path) {
     // liveness at the end: both towers still answer ping
     let mut alive = true;
     for t in [&a, &b] {
+        if t.hung {
+            alive = false;
+            continue;
+        }
         let o = exchange(t.http, b"GET /ping HTTP/1.1\r\nHost: x\r\nConnection: close\r\n\r\n".to_vec(), false, false, Duration::from_secs(5));
         alive &= o.status == Some(200);
     }
